@@ -108,15 +108,43 @@ def check_term(c):
     return None
 
 
-CHECKS = {'reduction': check_reduction, 'qualify': check_qualify, 'term': check_term}
+def equation_case(rng):
+    a, b, c = rng.sample(['x', 'y', 'xx', 'x_', 'a', 'aa', 'z'], 3)
+    m = rng.choice([{a: b, b: a}, {a: b, b: c}, {a: b}, {a: b, b: c, c: a}])
+    lead = rng.choice(['%s*2 + %s' % (a, b), '%s - %s/%s' % (b, a, c), 'max(%s, %s)' % (a, b), a])
+    terms = [rng.choice([a, b, c, a + '*' + b]) for _ in range(rng.randint(0, 3))]
+    return {'kind': 'equation', 'lead': lead, 'terms': terms, 'map': m, 'via_block': rng.random() < 0.5}
+
+
+def check_equation(c):
+    from sfc_models.equation import Equation, Term, EquationBlock
+    eq = Equation('lhs', '', [Term(c['lead'], is_blob=True)])
+    for t in c['terms']:
+        eq.AddTerm(t)
+    before = eq.RHS()
+    if c['via_block']:
+        blk = EquationBlock()
+        blk.AddEquation(eq)
+        blk.ReplaceTokensFromLookup(dict(c['map']))
+    else:
+        eq.ReplaceTokensFromLookup(dict(c['map']))
+    after = eq.RHS()
+    want = renamed(names_and_ops(before), c['map'])
+    have = names_and_ops(after)
+    if have != want:
+        return 'Equation %r renamed with %r gave %r' % (before, c['map'], after)
+    return None
+
+
+CHECKS = {'reduction': check_reduction, 'qualify': check_qualify, 'term': check_term, 'equation': check_equation}
 KEYS = {'reduction': 'caller:FindExactMatches-not-hygienic', 'qualify': 'caller:final-equation-qualification',
-        'term': 'caller:Term-ReplaceTokensFromLookup'}
+        'term': 'caller:Term-ReplaceTokensFromLookup', 'equation': 'caller:Equation-ReplaceTokensFromLookup'}
 
 
 def run(rng, n):
-    fails, stats = [], {'reduction': 0, 'qualify': 0, 'term': 0}
+    fails, stats = [], {'reduction': 0, 'qualify': 0, 'term': 0, 'equation': 0}
     for i in range(n):
-        c = (reduction_case, qualify_case, term_case)[i % 3](rng)
+        c = (reduction_case, qualify_case, term_case, equation_case)[i % 4](rng)
         stats[c['kind']] += 1
         why = CHECKS[c['kind']](c)
         if why:
